@@ -3251,6 +3251,12 @@ impl PeerConnection {
         label: &str,
         config: Option<crate::transports::sctp::DataChannelConfig>,
     ) -> RtcResult<Arc<crate::transports::sctp::DataChannel>> {
+        if self.inner.closed_cleanup_done.load(Ordering::SeqCst)
+            || *self.inner.peer_state.borrow() == PeerConnectionState::Closed
+        {
+            // nothing would ever open, close or end such a channel
+            return Err(RtcError::InvalidState("PeerConnection is closed".into()));
+        }
         // Ensure we have an application transceiver for negotiation
         let has_app_transceiver = {
             let transceivers = self.inner.transceivers.lock();
@@ -3298,6 +3304,15 @@ impl PeerConnection {
         ));
 
         self.inner.data_channels.lock().push(Arc::downgrade(&dc));
+        if self.inner.closed_cleanup_done.load(Ordering::SeqCst) {
+            // close() ran between the check above and the registration
+            dc.state.store(
+                crate::transports::sctp::DataChannelState::Closed as usize,
+                Ordering::SeqCst,
+            );
+            dc.close_channel();
+            return Err(RtcError::InvalidState("PeerConnection is closed".into()));
+        }
 
         if !dc.negotiated {
             let transport = self.inner.sctp_transport.lock().clone();
